@@ -5,9 +5,11 @@
 set -e
 V=${1:-hooks}
 ROOT=/verif
-B=$ROOT/.build/$V
-mkdir -p $ROOT/.build
-exec 9>$ROOT/.build/.lock.$V
+REPO=${VERIF_REPO:-/repo}
+BR=$ROOT/.build; [ -n "$VERIF_SCRATCH" ] && BR=$VERIF_SCRATCH/build
+B=$BR/$V
+mkdir -p $BR
+exec 9>$BR/.lock.$V
 flock 9
 CXX=clang++-16; CC=clang-16; EXTRA=""
 case $V in
@@ -17,7 +19,7 @@ case $V in
   *) echo "unknown variant $V"; exit 2;;
 esac
 if [ ! -f $B/build.ninja ]; then
-  cmake -G Ninja -S /repo -B $B -DCMAKE_BUILD_TYPE=RelWithDebInfo \
+  cmake -G Ninja -S $REPO -B $B -DCMAKE_BUILD_TYPE=RelWithDebInfo \
     -DCMAKE_CXX_COMPILER=$CXX -DCMAKE_C_COMPILER=$CC \
     -DCMAKE_CXX_FLAGS="-Wno-error -DLLBUILD_VERIF $EXTRA" -DCMAKE_C_FLAGS="-Wno-error $EXTRA" \
     -DCMAKE_EXE_LINKER_FLAGS="$EXTRA" -DCMAKE_SHARED_LINKER_FLAGS="$EXTRA" \
@@ -25,7 +27,7 @@ if [ ! -f $B/build.ninja ]; then
 fi
 cmake --build $B --target llbuild libllbuild llbuildBuildSystem llbuildNinja llbuildCommands llbuildCore llbuildBasic > $B.build.log 2>&1 || { tail -50 $B.build.log; exit 2; }
 mkdir -p $B/harness
-FLAGS="-std=c++14 -fno-rtti -fno-exceptions -O1 -g -DLLBUILD_VERIF $EXTRA -I/repo/include -I/repo/lib/llvm -I/repo/products/libllbuild/include -include /repo/include/libstdc++14-workaround.h"
+FLAGS="-std=c++14 -fno-rtti -fno-exceptions -O1 -g -DLLBUILD_VERIF $EXTRA -I$REPO/include -I$REPO/lib/llvm -I$REPO/products/libllbuild/include -include $REPO/include/libstdc++14-workaround.h"
 LIBS="-L$B/lib -lllbuild -lllbuildBuildSystem -lllbuildNinja -lllbuildCommands -lllbuildCore -lllbuildBasic -lllvmSupport -lLLVMDemangle -lsqlite3 -lcurses -ldl -lpthread"
 for src in $ROOT/harness/*.cpp; do
   name=$(basename $src .cpp)
